@@ -123,10 +123,15 @@ fn show(r: &Result<RawFuzzyHash, GeneratorOrIOError>) -> String {
     }
 }
 
-fn reference(data: &[u8]) -> Result<RawFuzzyHash, ssdeep::GeneratorError> {
-    let mut g = Generator::new();
-    g.update(data);
-    g.finalize()
+/// The reference hash of a byte string; None if the plain generator itself
+/// panics on it (then nothing here is judged against it: that is C03's subject).
+fn reference(data: &[u8]) -> Option<Result<RawFuzzyHash, ssdeep::GeneratorError>> {
+    guarded(|| {
+        let mut g = Generator::new();
+        g.update(data);
+        g.finalize()
+    })
+    .ok()
 }
 
 fn fault_probe(cx: &mut Ctx, tr: &ReadTrace) {
@@ -209,8 +214,7 @@ fn step(cx: &mut Ctx, data: &mut Vec<u8>, op: &Op) {
             let tr = rd.trace.clone();
             let runaway = rd.runaway;
             cx.ev_std(format_args!(
-                "hash_stream reads={} delivered={} term={} -> {}",
-                tr.calls,
+                "hash_stream delivered={} term={} -> {}",
                 tr.delivered,
                 term_name(&tr),
                 show(&got)
@@ -232,7 +236,7 @@ fn step(cx: &mut Ctx, data: &mut Vec<u8>, op: &Op) {
         Op::File { spec } => {
             let fr = run_hash_file(data, spec);
             cx.ev_std(format_args!(
-                "hash_file open={} meta={} reads={} delivered={} term={} -> {}",
+                "hash_file open={} meta={} delivered={} term={} -> {}",
                 match &spec.open {
                     Ok(()) => "ok".to_string(),
                     Err(e) => e.name(),
@@ -241,7 +245,6 @@ fn step(cx: &mut Ctx, data: &mut Vec<u8>, op: &Op) {
                     Ok(n) => n.to_string(),
                     Err(e) => e.name(),
                 },
-                fr.trace.calls,
                 fr.trace.delivered,
                 term_name(&fr.trace),
                 show(&fr.result)
@@ -253,25 +256,30 @@ fn step(cx: &mut Ctx, data: &mut Vec<u8>, op: &Op) {
                 return;
             }
             if let Err(e) = &spec.open {
+                // "a file ... which cannot be opened: the result is an error, never a hash"
                 cx.probe("fault.fired.open_error");
                 match &fr.result {
-                    Err(GeneratorOrIOError::IOError(x)) if e.matches(x) => {}
-                    other => cx.fail(
+                    Err(GeneratorOrIOError::IOError(x)) if e.matches(x) => cx.probe("io.open_error_identity_kept"),
+                    Err(_) => cx.probe("io.open_error_other_error"),
+                    Ok(_) => cx.fail(
                         "C18.file_open_err",
                         e.name(),
-                        format!("open failed with {} but hash_file returned {}", e.name(), show(other)),
+                        format!("open failed with {} but hash_file returned {}", e.name(), show(&fr.result)),
                     ),
                 }
                 return;
             }
             if let Err(e) = &spec.meta {
+                // the statement does not mention metadata failures; the only
+                // reading that cannot be wrong: no hash comes back
                 cx.probe("fault.fired.metadata_error");
                 match &fr.result {
-                    Err(GeneratorOrIOError::IOError(x)) if e.matches(x) => {}
-                    other => cx.fail(
+                    Err(GeneratorOrIOError::IOError(x)) if e.matches(x) => cx.probe("io.metadata_error_identity_kept"),
+                    Err(_) => cx.probe("io.metadata_error_other_error"),
+                    Ok(_) => cx.fail(
                         "C18.file_meta_err",
                         e.name(),
-                        format!("metadata failed with {} but hash_file returned {}", e.name(), show(other)),
+                        format!("metadata failed with {} but hash_file returned {}", e.name(), show(&fr.result)),
                     ),
                 }
                 return;
@@ -317,8 +325,8 @@ fn step(cx: &mut Ctx, data: &mut Vec<u8>, op: &Op) {
 fn term_name(tr: &ReadTrace) -> String {
     match &tr.terminal {
         None => "none".to_string(),
-        Some(Ok(())) => format!("eof@{}", tr.terminal_at),
-        Some(Err(e)) => format!("{}@{}", e.name(), tr.terminal_at),
+        Some(Ok(())) => "eof".to_string(),
+        Some(Err(e)) => e.name(),
     }
 }
 
@@ -342,11 +350,21 @@ fn judge_reads(
     }
     match &tr.terminal {
         Some(Err(spec)) => match got {
-            Err(GeneratorOrIOError::IOError(e)) if spec.matches(e) => {
+            Err(GeneratorOrIOError::IOError(e)) if e.kind() == spec.kind() => {
+                // "returned to the caller as that I/O error": the kind is what is
+                // demanded; whether the raw OS code / custom payload survive
+                // (an implementation may add context) is recorded only
+                if spec.matches(e) {
+                    cx.probe("io.error_identity_kept");
+                } else {
+                    cx.probe("io.error_kind_kept_code_lost");
+                }
                 if matches!(spec, ErrSpec::Custom(_)) && e.get_ref().is_some() {
                     cx.probe("io.custom_payload_preserved");
                 }
             }
+            // for files the statement only says "an error, never a hash"
+            Err(_) if meta.is_some() => cx.probe("io.file_read_error_other_error"),
             Ok(_) => cx.fail(
                 "C18.no_hash_on_error",
                 format!("{}:{}", what, spec.name()),
@@ -401,7 +419,10 @@ fn judge_reads(
                 return;
             }
             // everything was consumed (or the script is ambiguous): judge the bytes handed over
-            let want = reference(&data[..tr.delivered]);
+            let Some(want) = reference(&data[..tr.delivered]) else {
+                cx.probe("io.reference_panicked");
+                return;
+            };
             let same = match (got, &want) {
                 (Ok(a), Ok(b)) => a.full_eq(b),
                 _ => false,
@@ -441,7 +462,10 @@ fn judge_reads(
                     return;
                 }
             }
-            let want = reference(delivered);
+            let Some(want) = reference(delivered) else {
+                cx.probe("io.reference_panicked");
+                return;
+            };
             let same = match (got, &want) {
                 (Ok(a), Ok(b)) => a.full_eq(b),
                 _ => false,
